@@ -179,6 +179,12 @@ func DecodeString(inp []byte, startIndex int) (str []byte, bytesRead int, err er
 		return []byte{inp[dataStartIndex]}, 1, nil
 	}
 
+	// check that the data is in the range of the input
+	// (compare sizes, the end index itself might overflow)
+	if dataSize > len(inp)-dataStartIndex {
+		return nil, 0, ErrIncompleteInput
+	}
+
 	// if for data we have to read only a single extra byte and that byte
 	// is in the range of characters, we are using two bytes instead of 1 byte
 	if dataSize == 1 && inp[dataStartIndex] <= ByteRangeEnd {
@@ -187,9 +193,6 @@ func DecodeString(inp []byte, startIndex int) (str []byte, bytesRead int, err er
 
 	// collect and return string
 	dataEndIndex := dataStartIndex + dataSize
-	if dataEndIndex > len(inp) {
-		return nil, 0, ErrIncompleteInput
-	}
 
 	return inp[dataStartIndex:dataEndIndex], dataEndIndex - startIndex, nil
 }
@@ -215,7 +218,8 @@ func DecodeList(inp []byte, startIndex int) (encodedItems [][]byte, bytesRead in
 		return retList, 1, nil
 	}
 
-	if listDataSize+dataStartIndex > len(inp) {
+	// compare sizes, the end index itself might overflow
+	if listDataSize > len(inp)-dataStartIndex {
 		return nil, 0, ErrIncompleteInput
 	}
 
@@ -228,10 +232,11 @@ func DecodeList(inp []byte, startIndex int) (encodedItems [][]byte, bytesRead in
 			return nil, 0, err
 		}
 		// collect encoded item
-		itemEndIndex = itemDataStartIndex + itemSize
-		if itemEndIndex > len(inp) {
+		// (compare sizes, the end index itself might overflow)
+		if itemSize > len(inp)-itemDataStartIndex {
 			return nil, 0, ErrIncompleteInput
 		}
+		itemEndIndex = itemDataStartIndex + itemSize
 		retList = append(retList, inp[itemStartIndex:itemEndIndex])
 		dataBytesRead += itemEndIndex - itemStartIndex
 		itemStartIndex = itemEndIndex
